@@ -87,6 +87,9 @@ def run_tlc(workdir, module, cfg, env_extra=None, workers=1, xmx="3g", timeout=9
     env = dict(os.environ)
     env["JAVA_TOOL_OPTIONS"] = "-Xss1g"
     env.update(env_extra or {})
+    for k in ("TRACE", "FOCUS", "KNOWN", "FRAMES", "COOKIES", "MCCFG", "MCDEPTH"):
+        if k not in (env_extra or {}):
+            env.pop(k, None)
     meta = os.path.join(workdir, "states_" + module + "_" + str(os.getpid()) + "_" + str(time.time_ns()))
     cmd = ["java", "-XX:+UseParallelGC", "-Xmx" + xmx, "-cp", TLA_CP, "tlc2.TLC",
            "-workers", str(workers), "-metadir", meta, "-cleanup", "-noGenerateSpecTE",
